@@ -28,7 +28,10 @@ ALLOWED = {
     "from_iter": {"default", "from_iter", "extend"},
     "into_iter": {"into_iter", "iter", "iter_mut"},
     "iter": {"into_iter", "iter"}, "iter_mut": {"into_iter", "iter_mut"},
+    # overrides of provided iterator methods (none on the pinned tree; if one appears it is held to the same lockstep rule)
+    "nth": {"nth"}, "nth_back": {"nth_back"}, "last": {"last"},
 }
+ITER_TRAITS = ("Iterator", "DoubleEndedIterator", "ExactSizeIterator", "Extend", "FromIterator", "IntoIterator", "FusedIterator")
 # adapters that do not change which collection is operated on
 ADAPTERS = {"as_ref", "as_mut", "clone", "borrow", "borrow_mut", "by_ref", "deref", "deref_mut"}
 # wrappers around results that keep the component (Option::map(Hue), `?`)
@@ -275,6 +278,18 @@ def run(F, rep, tier="quick", extra=None, only=None):
             continue
         cands.append((b, adt, comps))
         soa_adts.add(adt)
+    # closed world: an iterator / collection trait impl of a struct-of-arrays type must not contain a method the lockstep rule has no
+    # entry for (an `nth_back` or `fold` override is new behaviour nobody compared with Vec<Color>)
+    for im in F.impls:
+        tr = (im.get("trait") or "").split("::")[-1]
+        if tr not in ITER_TRAITS:
+            continue
+        for it in im["items"]:
+            b2 = F.body_by_id.get(it["i"]) if it["kind"] == "Fn" else None
+            if b2 is None or b2["file"] not in FILES or "::test" in b2["path"]:
+                continue
+            if it["n"] not in ALLOWED:
+                rep.fail("NAME", b2["path"], "`%s` is overridden in a struct-of-arrays %s impl, but there is no lockstep rule for it" % (it["n"], tr), F.loc(b2))
     # result ADTs: the colours themselves, their Iter types, Alpha, alpha::Iter, hue newtypes and hue iterators
     for a in F.adts:
         if a["path"].endswith("::Iter") or a["path"].startswith("hues::"):
